@@ -517,4 +517,4 @@ def unit():
                     (SRC, BC_IMPL, 'transport_pin_mut', r'\{\s*self\.as_mut\(\)\.project\(\)\.transport\s*\}'),
                     (SRC, RQ_IMPL, 'channel_pin_mut', r'\{\s*self\.as_mut\(\)\.project\(\)\.channel\s*\}'),
                     (SRC, RQ_IMPL, 'pending_responses_mut', r'\{\s*self\.as_mut\(\)\.project\(\)\.pending_responses\s*\}'),
-                ])
+                ], lemmas=['server_history.rs'])
